@@ -196,26 +196,43 @@ Lemma opt_set_right_type o v :
 Proof. intros Hm Hi. unfold opt_set. rewrite Hm, Hi, orb_true_r. reflexivity. Qed.
 
 (* ------------------------------------------------------------------ *)
-(* options nobody mentions are untouched                               *)
+(* options nobody mentions are untouched; names, types and arity never change *)
+Definition same_static (o o' : opt) : Prop :=
+  o_key o' = o_key o /\ o_ty o' = o_ty o /\ o_multiple o' = o_multiple o.
+
+Lemma opt_parse_static o s : same_static o (fst (opt_parse o s)).
+Proof.
+  unfold opt_parse, same_static. destruct (o_multiple o) eqn:E.
+  - destruct (parse_parts _ _ _). simpl. auto.
+  - destruct (parse_one _ _); simpl; auto.
+Qed.
+Lemma opt_set_static o v : same_static o (fst (opt_set o v)).
+Proof.
+  unfold opt_set, same_static. destruct (o_multiple o) eqn:E.
+  - destruct v; simpl; auto. destruct (forallb _ _); simpl; auto.
+  - destruct (_ || _); simpl; auto.
+Qed.
+
 Section Unmentioned.
   Variable M : text -> bool.
-  Definition R (o o' : opt) := o_key o' = o_key o /\ (M (o_key o) = false -> o' = o).
+  Definition R (o o' : opt) := same_static o o' /\ (M (o_key o) = false -> o' = o).
 
-  Lemma R_refl o : R o o. Proof. split; auto. Qed.
+  Lemma R_refl o : R o o. Proof. repeat split; auto. Qed.
   Lemma F2_refl os : Forall2 R os os.
   Proof. induction os; constructor; auto using R_refl. Qed.
   Lemma F2_trans a : forall b c, Forall2 R a b -> Forall2 R b c -> Forall2 R a c.
   Proof.
     induction a as [|x a IH]; intros b c H1 H2; inversion H1; subst; inversion H2; subst; constructor.
-    - destruct H3 as [K1 E1], H4 as [K2 E2]. split; [congruence|].
+    - destruct H3 as [[K1 [T1 U1]] E1], H4 as [[K2 [T2 U2]] E2]. split; [repeat split; congruence|].
       intros Hm. rewrite <- (E1 Hm). apply E2. rewrite (E1 Hm). auto.
     - eapply IH; eauto.
   Qed.
-  Lemma update_R o' os : M (o_key o') = true -> Forall2 R os (update o' os).
+  Lemma update_R o o' os : lookup (o_key o) os = Some o -> same_static o o' -> M (o_key o) = true ->
+    Forall2 R os (update o' os).
   Proof.
-    intros Hm. induction os as [|x os IH]; simpl; [constructor|].
-    destruct (text_eqb (o_key x) (o_key o')) eqn:E.
-    - constructor; [|apply F2_refl]. apply text_eqb_true in E. split; [auto|]. rewrite E, Hm. discriminate.
+    intros EL [K [T U]] Hm. induction os as [|x os IH]; simpl in *; [constructor|].
+    rewrite K. destruct (text_eqb (o_key x) (o_key o)) eqn:E.
+    - inversion EL; subst x. constructor; [|apply F2_refl]. split; [repeat split; auto|]. rewrite Hm. discriminate.
     - constructor; [apply R_refl|auto].
   Qed.
 
@@ -228,12 +245,12 @@ Section Unmentioned.
     pose proof (H a (or_introl eq_refl)) as Ha. unfold key_of_arg in Ha.
     destruct (partition_at 61 (lstrip (fun c => (c =? 45)%N) a)) as [[name equals] val].
     simpl in Ha. destruct (lookup (normalize name) os) as [o|] eqn:EL; [|apply F2_refl].
-    apply lookup_key in EL.
+    pose proof (lookup_key _ _ _ EL) as EK. rewrite <- EK in EL, Ha.
     assert (G : forall v, Forall2 R os (fst (let '(o', e) := opt_parse o v in
                let os' := update o' os in
                match e with Some e => (os', Err e) | None => cmd_loop os' args end))).
-    { intros v. pose proof (opt_parse_key o v) as K. destruct (opt_parse o v) as [o' e]. simpl in K.
-      assert (Hu : Forall2 R os (update o' os)) by (apply update_R; rewrite K, EL; auto).
+    { intros v. pose proof (opt_parse_static o v) as K. destruct (opt_parse o v) as [o' e]. simpl in K.
+      assert (Hu : Forall2 R os (update o' os)) by (apply (update_R o); auto).
       destruct e; simpl; auto. eapply F2_trans; [exact Hu|]. apply IH. intros; apply H; right; auto. }
     destruct equals; [exact (G val)|]. destruct (ty_eqb (o_ty o) TBool); [exact (G w_true)|apply F2_refl].
   Qed.
@@ -245,17 +262,30 @@ Section Unmentioned.
     assert (IH' : forall os, Forall2 R os (fst (cfg_loop os bs))) by (intros; apply IH; intros; apply H; right; auto).
     pose proof (H _ (or_introl eq_refl)) as Ha. simpl in Ha.
     destruct (lookup (normalize name) os) as [o|] eqn:EL; [|auto].
-    apply lookup_key in EL.
+    pose proof (lookup_key _ _ _ EL) as EK. rewrite <- EK in EL, Ha.
     destruct (o_multiple o && negb (is_list v || is_str v)); [apply F2_refl|].
     destruct (if is_str v && (negb (ty_eqb (o_ty o) TStr) || o_multiple o)
               then match v with VStr s => opt_parse o s | _ => (o, None) end
               else opt_set o v) as [o' e] eqn:EO.
-    assert (K : o_key o' = o_key o).
+    assert (K : same_static o o').
     { destruct (is_str v && (negb (ty_eqb (o_ty o) TStr) || o_multiple o)).
-      - destruct v; try (inversion EO; subst; reflexivity).
-        pose proof (opt_parse_key o t) as K. rewrite EO in K. exact K.
-      - pose proof (opt_set_key o v) as K. rewrite EO in K. exact K. }
-    assert (Hu : Forall2 R os (update o' os)) by (apply update_R; rewrite K, EL; auto).
+      - destruct v; try (inversion EO; subst; repeat split; reflexivity).
+        pose proof (opt_parse_static o t) as K. rewrite EO in K. exact K.
+      - pose proof (opt_set_static o v) as K. rewrite EO in K. exact K. }
+    assert (Hu : Forall2 R os (update o' os)) by (apply (update_R o); auto).
+    destruct e; simpl; auto. eapply F2_trans; [exact Hu|]. auto.
+  Qed.
+
+  Lemma set_loop_R bs : forall os, (forall b, In b bs -> M (normalize (fst b)) = true) ->
+    Forall2 R os (fst (set_loop os bs)).
+  Proof.
+    induction bs as [|[name v] bs IH]; intros os H; simpl; [apply F2_refl|].
+    assert (IH' : forall os, Forall2 R os (fst (set_loop os bs))) by (intros; apply IH; intros; apply H; right; auto).
+    pose proof (H _ (or_introl eq_refl)) as Ha. simpl in Ha.
+    destruct (lookup (normalize name) os) as [o|] eqn:EL; [|apply F2_refl].
+    pose proof (lookup_key _ _ _ EL) as EK. rewrite <- EK in EL, Ha.
+    pose proof (opt_set_static o v) as K. destruct (opt_set o v) as [o' e]. simpl in K.
+    assert (Hu : Forall2 R os (update o' os)) by (apply (update_R o); auto).
     destruct e; simpl; auto. eapply F2_trans; [exact Hu|]. auto.
   Qed.
 
@@ -265,7 +295,7 @@ Section Unmentioned.
   Proof.
     induction ss as [|s ss IH]; intros os H; simpl; [apply F2_refl|].
     assert (IH' : forall os, Forall2 R os (fst (run_sources os ss))) by (intros; apply IH; intros; eapply H; eauto; right; auto).
-    destruct s as [argv|bs].
+    destruct s as [argv|bs|bs].
     - assert (F : Forall2 R os (fst (parse_command_line os argv))).
       { unfold parse_command_line. destruct argv as [|a0 args]; [apply F2_refl|].
         apply cmd_loop_R. intros a Ha. apply (H (SCmd (a0 :: args))); [left; auto|].
@@ -277,11 +307,16 @@ Section Unmentioned.
         simpl. apply existsb_exists. exists b. split; auto. apply text_eqb_refl. }
       destruct (cfg_loop os bs) as [os' [e|]]; simpl in F; [exact F|].
       specialize (IH' os'). destruct (run_sources os' ss) as [os'' outs]. simpl in *. eapply F2_trans; eauto.
+    - assert (F : Forall2 R os (fst (set_loop os bs))).
+      { apply set_loop_R. intros b Hb. apply (H (SSet bs)); [left; auto|].
+        simpl. apply existsb_exists. exists b. split; auto. apply text_eqb_refl. }
+      destruct (set_loop os bs) as [os' [e|]]; simpl in F; [exact F|].
+      specialize (IH' os'). destruct (run_sources os' ss) as [os'' outs]. simpl in *. eapply F2_trans; eauto.
   Qed.
 
   Lemma lookup_R os os' k : Forall2 R os os' -> M k = false -> lookup k os' = lookup k os.
   Proof.
-    induction 1 as [|o o' os os' [K E] _ IH]; intros Hk; simpl; auto.
+    induction 1 as [|o o' os os' [[K _] E] _ IH]; intros Hk; simpl; auto.
     rewrite K. destruct (text_eqb (o_key o) k) eqn:Ek; auto.
     apply text_eqb_true in Ek. rewrite E by congruence. reflexivity.
   Qed.
@@ -360,7 +395,7 @@ Lemma defaults_kept_model ss defs : forall os',
 Proof.
   induction defs as [|d defs IH]; intros os' H; inversion H; subst; simpl; auto.
   rewrite IH by auto. rewrite andb_true_r.
-  destruct H2 as [K E]. simpl in E.
+  destruct H2 as [[K _] E]. simpl in E.
   destruct (mentioned (normalize (d_name d)) ss); [reflexivity|].
   rewrite (E eq_refl). simpl. apply obs_eqb_refl.
 Qed.
@@ -388,19 +423,157 @@ Proof.
   - simpl; eauto.
 Qed.
 
+(* (4) accepted assignments are well-typed, element-wise *)
+Definition rel (d : optdef) (o : opt) : Prop :=
+  o_key o = def_key d /\ o_ty o = eff_ty d /\ o_multiple o = d_multiple d.
+Definition MT : text -> bool := fun _ => true.
+
+Lemma rel_init defs : Forall2 rel defs (map init_opt defs).
+Proof. induction defs; simpl; constructor; auto. repeat split. Qed.
+Lemma rel_R defs os : forall os', Forall2 rel defs os -> Forall2 (R MT) os os' -> Forall2 rel defs os'.
+Proof.
+  intros os' H. revert os'. induction H as [|d o defs os [K [T U]] _ IH]; intros os' HR; inversion HR; subst; constructor.
+  - destruct H1 as [[K' [T' U']] _]. repeat split; congruence.
+  - apply IH. auto.
+Qed.
+Lemma lookup_find defs os k : Forall2 rel defs os ->
+  match lookup k os with
+  | Some o => exists d, find_def k defs = Some d /\ rel d o
+  | None => find_def k defs = None
+  end.
+Proof.
+  induction 1 as [|d o defs os Hr _ IH]; simpl; auto.
+  destruct Hr as [K TU]. rewrite K. unfold def_key.
+  destruct (text_eqb (normalize (d_name d)) k); [|exact IH].
+  exists d. split; auto. split; auto.
+Qed.
+Lemma opt_set_ok o v o' : opt_set o v = (o', None) -> acceptable (o_ty o) (o_multiple o) v = true.
+Proof.
+  unfold opt_set, acceptable. destruct (o_multiple o).
+  - destruct v; try discriminate. destruct (forallb _ _); [reflexivity|discriminate].
+  - destruct (_ || _); [reflexivity|discriminate].
+Qed.
+Lemma update_rel defs os o o' : Forall2 rel defs os -> lookup (o_key o) os = Some o -> same_static o o' ->
+  Forall2 rel defs (update o' os).
+Proof. intros Hr EL Hs. eapply rel_R; [exact Hr|]. apply (update_R MT o); auto. Qed.
+
+Lemma cfg_ok defs bs : forall os os', Forall2 rel defs os -> cfg_loop os bs = (os', None) ->
+  forallb (binding_ok defs true) bs = true.
+Proof.
+  induction bs as [|[name v] bs IH]; intros os os' Hr H; simpl in *; auto.
+  unfold binding_ok at 1. cbn [fst snd].
+  pose proof (lookup_find defs os (normalize name) Hr) as LF.
+  destruct (lookup (normalize name) os) as [o|] eqn:EL.
+  - destruct LF as [d [Fd [K [T U]]]]. rewrite Fd.
+    pose proof (lookup_key _ _ _ EL) as EK. rewrite <- EK in EL.
+    destruct (o_multiple o && negb (is_list v || is_str v)); [discriminate|].
+    destruct (is_str v && (negb (ty_eqb (o_ty o) TStr) || o_multiple o)) eqn:Eb.
+    + apply andb_true_iff in Eb as [Es _]. rewrite Es. simpl.
+      destruct v; try discriminate.
+      pose proof (opt_parse_static o t) as St. destruct (opt_parse o t) as [o' [e|]]; [discriminate|].
+      eapply IH; [|exact H]. eapply update_rel; eauto.
+    + pose proof (opt_set_static o v) as St. destruct (opt_set o v) as [o' [e|]] eqn:Eo; [discriminate|].
+      rewrite <- T, <- U, (opt_set_ok _ _ _ Eo), orb_true_r. simpl.
+      eapply IH; [|exact H]. eapply update_rel; eauto.
+  - rewrite LF. simpl. eapply IH; eauto.
+Qed.
+Lemma set_ok defs bs : forall os os', Forall2 rel defs os -> set_loop os bs = (os', None) ->
+  forallb (binding_ok defs false) bs = true.
+Proof.
+  induction bs as [|[name v] bs IH]; intros os os' Hr H; simpl in *; auto.
+  unfold binding_ok at 1. cbn [fst snd].
+  pose proof (lookup_find defs os (normalize name) Hr) as LF.
+  destruct (lookup (normalize name) os) as [o|] eqn:EL; [|discriminate].
+  destruct LF as [d [Fd [K [T U]]]]. rewrite Fd.
+  pose proof (lookup_key _ _ _ EL) as EK. rewrite <- EK in EL.
+  pose proof (opt_set_static o v) as St. destruct (opt_set o v) as [o' [e|]] eqn:Eo; [discriminate|].
+  rewrite <- T, <- U, (opt_set_ok _ _ _ Eo). simpl.
+  eapply IH; [|exact H]. eapply update_rel; eauto.
+Qed.
+
+Lemma accepted_model defs ss : forall os os' outs, Forall2 rel defs os ->
+  run_sources os ss = (os', outs) -> accepted_ok defs ss (map outcome_obs outs) = true.
+Proof.
+  induction ss as [|s ss IH]; intros os os' outs Hr H; simpl in H.
+  - inversion H; subst. reflexivity.
+  - destruct s as [argv|bs|bs].
+    + destruct (parse_command_line os argv) as [os1 [rem|e]] eqn:EP.
+      * assert (Hr1 : Forall2 rel defs os1).
+        { eapply rel_R; [exact Hr|]. replace os1 with (fst (parse_command_line os argv)) by (rewrite EP; auto).
+          unfold parse_command_line. destruct argv; [apply F2_refl|]. apply cmd_loop_R. reflexivity. }
+        destruct (run_sources os1 ss) as [os2 outs2] eqn:ER. inversion H; subst.
+        simpl. eapply IH; eauto.
+      * inversion H; subst. simpl. destruct e; destruct ss; reflexivity.
+    + destruct (cfg_loop os bs) as [os1 [e|]] eqn:EC.
+      * inversion H; subst. simpl. destruct e; destruct ss; reflexivity.
+      * assert (Hr1 : Forall2 rel defs os1).
+        { eapply rel_R; [exact Hr|]. replace os1 with (fst (cfg_loop os bs)) by (rewrite EC; auto).
+          apply cfg_loop_R. reflexivity. }
+        destruct (run_sources os1 ss) as [os2 outs2] eqn:ER. inversion H; subst.
+        simpl. rewrite (cfg_ok defs bs os os1 Hr EC). simpl. eapply IH; eauto.
+    + destruct (set_loop os bs) as [os1 [e|]] eqn:EC.
+      * inversion H; subst. simpl. destruct e; destruct ss; reflexivity.
+      * assert (Hr1 : Forall2 rel defs os1).
+        { eapply rel_R; [exact Hr|]. replace os1 with (fst (set_loop os bs)) by (rewrite EC; auto).
+          apply set_loop_R. reflexivity. }
+        destruct (run_sources os1 ss) as [os2 outs2] eqn:ER. inversion H; subst.
+        simpl. rewrite (set_ok defs bs os os1 Hr EC). simpl. eapply IH; eauto.
+Qed.
+
 Lemma check_case_model : forall i, check_case i (run_case i) = true.
 Proof.
   intros [defs srcs]. unfold check_case, run_case. rewrite define_all_spec. simpl map.
   unfold has_dup. fold def_key. change (map (fun d => normalize (d_name d)) defs) with (map def_key defs).
   destruct (dup_from [] (map def_key defs)); [reflexivity|]. simpl app.
   destruct (run_sources (map init_opt defs) srcs) as [os' outs] eqn:ER.
-  apply andb_true_intro. split.
+  apply andb_true_intro. split; [apply andb_true_intro; split|].
   - apply defaults_kept_model. replace os' with (fst (run_sources (map init_opt defs) srcs)) by (rewrite ER; auto).
     apply run_sources_R. intros s k Hs Hm. unfold mentioned. apply existsb_exists. exists s. auto.
-  - destruct srcs as [|[[|a0 args]|bs] ss]; auto.
+  - eapply accepted_model; [apply rel_init|exact ER].
+  - destruct srcs as [|[[|a0 args]|bs|bs] ss]; auto.
     destruct (unknown_before_end (map def_key defs) args) eqn:EU; auto.
     destruct (unknown_raises (map def_key defs) args (map init_opt defs)) as [e He]; auto.
     { rewrite map_map. reflexivity. }
     simpl in ER. destruct (cmd_loop (map init_opt defs) args) as [os1 r]. simpl in He. subst r.
     inversion ER; subst. destruct e; reflexivity.
 Qed.
+
+(* ------------------------------------------------------------------ *)
+(* attribute assignment (options.name = value) and element-wise typing  *)
+Lemma set_unknown os name v bs : lookup (normalize name) os = None ->
+  set_loop os ((name, v) :: bs) = (os, Some EAttributeError).
+Proof. intros H. simpl. rewrite H. reflexivity. Qed.
+Lemma set_step os name v bs o : lookup (normalize name) os = Some o ->
+  set_loop os ((name, v) :: bs) =
+    match opt_set o v with
+    | (o', Some e) => (update o' os, Some e)
+    | (o', None) => set_loop (update o' os) bs
+    end.
+Proof. intros H. simpl. rewrite H. destruct (opt_set o v) as [o' [e|]]; reflexivity. Qed.
+
+Lemma opt_set_list_elementwise o l x :
+  o_multiple o = true -> In x l -> is_none x = false -> inst (o_ty o) x = false ->
+  opt_set o (VList l) = (o, Some EError).
+Proof.
+  intros Hm Hin Hn Hi. unfold opt_set. rewrite Hm.
+  assert (E : forallb (fun x => is_none x || inst (o_ty o) x) l = false).
+  { destruct (forallb _ l) eqn:E; auto. rewrite forallb_forall in E. specialize (E x Hin). rewrite Hn, Hi in E. discriminate. }
+  rewrite E. reflexivity.
+Qed.
+Lemma opt_set_list_ok o l :
+  o_multiple o = true -> (forall x, In x l -> is_none x = true \/ inst (o_ty o) x = true) ->
+  opt_set o (VList l) = (set_value o (VList l), None).
+Proof.
+  intros Hm H. unfold opt_set. rewrite Hm.
+  assert (E : forallb (fun x => is_none x || inst (o_ty o) x) l = true).
+  { apply forallb_forall. intros x Hx. destruct (H x Hx) as [E|E]; rewrite E; auto using orb_true_r. }
+  rewrite E. reflexivity.
+Qed.
+
+Lemma rel_defined defs os : define_all [] defs = Some os -> Forall2 rel defs os.
+Proof. intros H. apply define_all_fresh in H. subst. apply rel_init. Qed.
+
+Theorem accepted_sources_well_typed defs os ss os' outs :
+  define_all [] defs = Some os -> run_sources os ss = (os', outs) ->
+  accepted_ok defs ss (map outcome_obs outs) = true.
+Proof. intros Hd Hr. eapply accepted_model; [apply rel_defined; eauto|eauto]. Qed.
